@@ -2,6 +2,7 @@ package main
 
 import (
 	"fmt"
+	"reflect"
 	"runtime"
 	"strings"
 	"sync"
@@ -26,7 +27,8 @@ type c12Slot struct {
 	_          [64]byte // keep slots on separate cache lines; they are never shared between goroutines
 }
 
-var c12Modes = []string{"compiled x shared document", "compiled x per-goroutine documents", "one-shot Search x shared document", "concurrent Compile/MustCompile", "NewParser per goroutine"}
+var c12Modes = []string{"compiled x shared document", "compiled x per-goroutine documents", "one-shot Search x shared document", "concurrent Compile/MustCompile", "NewParser per goroutine",
+	"compiled x shared Go-struct document", "one-shot Search x shared Go-struct document"}
 
 func c12Exprs(seed uint64) []*gen.Expr {
 	base := docs.J(c06DocText).(map[string]interface{})
@@ -63,7 +65,7 @@ func c12Exprs(seed uint64) []*gen.Expr {
 }
 
 func c12(r *mon.Run) {
-	r.Rule = "rounds of N in {2,4,16} goroutines released together (GOMAXPROCS 2 and 16), with no synchronisation between them until they are joined: (a) one compiled expression on one shared document, (b) one compiled expression on per-goroutine documents, (c) the one-shot Search on a shared document, (d) concurrent Compile / MustCompile of the same and of different expressions, (e) NewParser per goroutine; " +
+	r.Rule = "rounds of N in {2,4,16} goroutines released together (GOMAXPROCS 2 and 16), with no synchronisation between them until they are joined: (a) one compiled expression on one shared document, (b) one compiled expression on per-goroutine documents, (c) the one-shot Search on a shared document, (d) concurrent Compile / MustCompile of the same and of different expressions, (e) NewParser per goroutine, (f) a freshly compiled expression and (g) the one-shot Search on a shared Go-struct document (reflection paths; the first calls on a type are the concurrent ones); " +
 		"expressions: the function matrix of C06 with document-fed and literal-fed arguments (literals live in the shared AST), sorts of sorts, raw-string-heavy expressions, every node kind, seeded random trees. Monitors: the race detector (any report with a library frame), every goroutine's result against the reference model's allowed set, the compiled AST before/after, and the process surviving (fatal errors are seen by the driver). " +
 		"Non-trivial = distinct (mode, N, expression) rounds whose calls really overlapped in time (measured from per-goroutine timestamps)."
 	r.Floor = 200
@@ -75,7 +77,7 @@ func c12(r *mon.Run) {
 	}
 	trees := c12Exprs(r.Seed)
 	baseDoc := docs.J(c06DocText)
-	rounds := tierPick(r, 2500, 60000)
+	rounds := tierPick(r, 7000, 100000)
 	prevProcs := runtime.GOMAXPROCS(0)
 	defer runtime.GOMAXPROCS(prevProcs)
 	w := mon.Workload{Name: "rounds", N: rounds, Serial: true, Batch: 100,
@@ -88,12 +90,21 @@ func c12(r *mon.Run) {
 			N := []int{2, 4, 16}[(i/7)%3]
 			procs := []int{16, 2}[(i/3)%2]
 			runtime.GOMAXPROCS(procs)
-			expr := gen.Spell(tree)
 			rng := gen.DeriveN(r.Seed, "c12round", i)
 			var doc interface{} = baseDoc
 			if i%4 == 3 {
 				doc = docs.NewRand(rng).TypedDoc(0)
 			}
+			var sdoc interface{} // Go-struct form for modes 5 and 6 (reflection paths, per-type state)
+			lower := false
+			if mode >= 5 {
+				lower = rng.Bool()
+				sdoc = docs.StructDoc(rng, rng.Intn(4))
+				g := &navGen{r: rng, lower: lower}
+				tree = g.expr(reflect.TypeOf(sdoc), rng.Intn(3))
+				doc = docs.ToGeneric(sdoc, lower)
+			}
+			expr := gen.Spell(tree)
 			res := ref.RefSet(tree, doc, gen.Quirks{})
 			shared := withSpare(doc)
 			jp, co := apiCompile(expr)
@@ -146,6 +157,10 @@ func c12(r *mon.Run) {
 							}
 							return nil, nil
 						})
+					case 5:
+						s.o = apiJP(jp, sdoc)
+					case 6:
+						s.o = apiSearch(expr, sdoc)
 					default:
 						s.o = mon.Guard(func() (interface{}, error) {
 							p := jmespath.NewParser()
@@ -183,6 +198,16 @@ func c12(r *mon.Run) {
 					return
 				}
 				switch mode {
+				case 5, 6:
+					so := s.o
+					if so.Err == nil {
+						so.V = docs.ToGeneric(so.V, lower)
+					}
+					if res.Skipped == "" && !res.DontCare && !matches(res, so) {
+						r.Violate(&mon.Violation{Workload: "rounds", Index: i, API: c12Modes[mode], Expr: expr, Doc: doc, Expected: "what the same call returns when made alone (JSON-normalised): " + expectedString(res),
+							Observed: fmt.Sprintf("goroutine %d of %d: %s", k, N, so.String()), Class: "concurrent result on struct data differs"})
+						return
+					}
 				case 0, 1, 2:
 					if res.Skipped == "" && !res.DontCare && !matches(res, s.o) {
 						r.Violate(&mon.Violation{Workload: "rounds", Index: i, API: c12Modes[mode], Expr: expr, Doc: doc, Expected: "what the same call returns when made alone: " + expectedString(res),
